@@ -420,6 +420,9 @@ def conservation(ob, rec, prop="C02"):
     ins, outs, org, dst = R.topology(desc)
     q = {l["id"]: [vals[l["id"]]["rho"][i] * vals[l["id"]]["v"][i] * l["lam"] for i in range(l["N"])]
          for l in desc["links"]}
+    for l in desc["links"]:
+        if l.get("user_cap") is not None:  # user-defined link kind: its flow is what its public get_flow says
+            q[l["id"]] = [min(x, l["user_cap"]) for x in q[l["id"]]]
     allnum = True
     for eid, d in nxt.items():
         for v in d.values():
@@ -443,7 +446,7 @@ def conservation(ob, rec, prop="C02"):
             oid = o["id"]
             if o["kind"] == "ideal":
                 lk = outs[o["node"]][0]
-                qo[oid] = q[lk["id"]][0]
+                qo[oid] = q[lk["id"]][0] if o.get("user_q") is None else o["user_q"]
                 mago[oid] = abs(qo[oid])
             else:
                 qo[oid] = vals[oid]["d"] - (nxt[oid]["w"] - vals[oid]["w"]) / T
